@@ -285,7 +285,7 @@ def one_value(bs, acc, sp, n, v, full):
     # history: build into a mutable owner, mutate it in place, build the same value again (a store shared with a memo would show)
     if full:
         for cls in ('BitArray', 'BitStream'):
-            for rname, fn, src, _m in CREATE[:4]:
+            for rname, fn, src, _m in CREATE[:4] + [r for r in CREATE if r[0] in ('fromstring', 'token-sized', 'pack', 'dtype-build')]:
                 if rname == 'setattr-len' and n == 0 or (n == 0 and rname in ('kw-sized', 'setattr-sized')):
                     continue
                 try:
